@@ -49,7 +49,11 @@ BOUND = (
     "and one hour before them) on each of the 7 lattice days + base-1d 12:00 (before everything) + base+4d "
     "00:00 (Sun/Mon midnight) + base+7d 03:00 (after everything); every file is queried (bid and ask, source "
     "and data handler) at all 59 instants of its window, then again in descending order with every instant "
-    "asked twice (lru_cache). "
+    "asked twice (lru_cache). Every dataset with at least 2 bars is also loaded (a) with whole-number opens written WITHOUT a "
+    "decimal point next to closes that carry .75 (integer Open column, float Close column), (b) with its first open set to "
+    "exactly 0.0 and its second close to a negative number, and every dataset with at least 3 bars and a free lattice day "
+    "between its first and last bar (c) next to a second asset with the SAME first day, last day and row count but another "
+    "day in between, on one source, asked alternately with either asset first. "
     "THOROUGH (exhaustive: 73 070 non-empty files x 59 instants = 4 311 130 cases, + 8 header-only files). "
     "On W0 the full enumeration (64 568 non-empty files): (a) |S|<=2: every S x every mask x every row "
     "permutation x adjust on/off; (b) |S|=3: every S x all 512 masks x adjust on/off in date order, and every "
@@ -180,12 +184,20 @@ def make_rows(asset, days, masks):
     return rows
 
 
-def csv_text(rows, lat=None):
-    """The CSV file for rows (in the given order) on the window `lat`.  High/Low/Volume are always present."""
+class _IntText(float):
+    def __repr__(self):
+        return "%d" % int(self)
+
+
+def csv_text(rows, lat=None, int_open=False):
+    """The CSV file for rows (in the given order) on the window `lat`.  High/Low/Volume are always present.
+    int_open: whole-number opens are written without a decimal point (the column then parses as integers)."""
     lat = lat or _WIN
     lines = ["Date,Open,High,Low,Close,Adj Close,Volume"]
     for d, o, c, a in rows:
-        f = lambda x: "" if x is None else repr(float(x))
+        f = lambda x: "" if x is None else (repr(x) if isinstance(x, _IntText) else repr(float(x)))
+        if int_open and o is not None and float(o) == int(o):
+            o = _IntText(o)
         # High / Low / Volume are never read by the library: present on most rows, EMPTY on some (days 2, 4, 5 of the lattice)
         lines.append("%s,%s,%s,%s,%s,%s,%s" % (lat.days[d].isoformat(), f(o), "" if d == 4 else repr(2000.0 + d),
                                                  "" if d == 5 else repr(1.0 + d), f(c), f(a), "" if d == 2 else str(1000 + d)))
@@ -441,6 +453,40 @@ def eval_unit(unit, acc, base):
         sR = _source(dR, adjust)
         rep_spec = [spec_price(rep_rows, adjust, t, lat) for t in INSTANTS]
         value_checks(_query_all(sR, "EQ:A", lat), "repeated-prices", spec=rep_spec)
+
+    # whole-number opens written WITHOUT a decimal point next to fractional closes (the Open column parses as integers, the Close
+    # column as floats): every cell is read at its own value
+    if k >= 2:
+        int_rows = [[d, o, (c + 0.75) if c is not None else None, (a + 0.375) if a is not None else None] for d, o, c, a in rows]
+        dI = _write_dir(udir, "I", {"A": csv_text(int_rows, lat, int_open=True)})
+        int_spec = [spec_price(int_rows, adjust, t, lat) for t in INSTANTS]
+        value_checks(_query_all(_source(dI, adjust), "EQ:A", lat), "integer-opens", spec=int_spec)
+        # a bar that opens at exactly 0.0 and a close BELOW zero are prices like any other (only an EMPTY cell is padded)
+        np_rows = [[d, (0.0 if j == 0 else o) if o is not None else None, (-37.5 - d if j == 1 else c) if c is not None else None,
+                    ((-37.5 - d) * (d + 1) / 8.0 if j == 1 else a) if a is not None else None]
+                   for j, (d, o, c, a) in enumerate(rows)]
+        dN = _write_dir(udir, "N", {"A": csv_text(np_rows, lat)})
+        np_spec = [spec_price(np_rows, adjust, t, lat) for t in INSTANTS]
+        value_checks(_query_all(_source(dN, adjust), "EQ:A", lat), "zero-and-negative-prices", spec=np_spec)
+
+    # two assets whose files have the SAME first day, last day and number of rows but a different day in between, on one source,
+    # asked alternately (each first at every other instant): an asset's answer comes from its own rows
+    inner = [x for x in range(days[0] + 1, days[-1]) if x not in bar_days] if k >= 3 else []
+    if inner:
+        cdays = sorted([days[0], inner[0]] + list(days[2:]))
+        crows = make_rows("B", cdays, [[1, 1, 1]] * k)
+        dT = _write_dir(udir, "T", {"A": csv_text(rows, lat), "C": csv_text(crows, lat)})
+        c_spec = [spec_price(crows, adjust, t, lat) for t in INSTANTS]
+        for first in (0, 1):
+            sT = _source(dT, adjust)
+            ansA, ansC = [None] * NI, [None] * NI
+            for i in range(NI):
+                for sym in (("EQ:A", "EQ:C") if (i + first) % 2 == 0 else ("EQ:C", "EQ:A")):
+                    (ansA if sym == "EQ:A" else ansC)[i] = (_call(sT.get_bid, _TS[i], sym), _call(sT.get_ask, _TS[i], sym))
+            value_checks(ansA, "same-calendar-shape-%d" % first)
+            for i in range(NI):
+                acc.check("cache-transparent", _eq(ansC[i][0], c_spec[i][0]) and _eq(ansC[i][1], c_spec[i][0]), size, unit,
+                          {"step": "same-calendar-shape", "first": first, "t": INSTANT_STR[i]}, ansC[i], (c_spec[i][0], c_spec[i][0]))
 
     # zone independence: the same INSTANT written in another time zone is the same query (and must not poison later answers)
     sZ = _source(dA, adjust)
